@@ -23,7 +23,7 @@ RULES = {
     'R9': 'printing a dump uses a ring of its own: the name qb_rb_create_from_file gives to qb_rb_open is not a constant (it contains the process id), so that two printers at the same time do not meet in each other\'s files and leave one behind',
     'R7': 'the reader takes what the writer can store: the largest message length the printer accepts and the text buffer it decodes into are not below the largest max_line_length a target can be given (C13.R4), and the record buffer is not of a constant size (the function name in a record has no bound) but measured on the ring just opened, and that measure is only ever raised by a constant, not capped',
 }
-FLOORS = {'R1': 9, 'R2': 12, 'R3': 2, 'R4': 6, 'R5': 5, 'R6': 12, 'R7': 4, 'R8': 4, 'R9': 1}
+FLOORS = {'R1': 9, 'R2': 12, 'R3': 2, 'R4': 9, 'R5': 5, 'R6': 12, 'R7': 4, 'R8': 4, 'R9': 1}
 
 
 def run(ctx):
@@ -298,6 +298,21 @@ def r3(ctx):
 
 def r4(ctx):
     prog = ctx.prog
+    # a ring that cannot be opened leaves no file: what qb_rb_open_2 removes on its failure exits is named by the paths it stored in the
+    # shared header when it created the files - not by the scratch buffer that both opens write their result into
+    o = prog.fn('qb_rb_open_2')
+    uls = list(o.calls('unlink'))
+    if not uls:
+        raise AnalysisBroken('qb_rb_open_2: its failure exits remove nothing')
+    for ev in uls:
+        lf = last_field(unwrap(ev.args[0]))
+        ctx.check('R4', 'rb_open:failure-removes-files-by-their-stored-names', lf is not None and lf[0] == 'qb_ringbuffer_shared_s' and lf[1] in ('hdr_path', 'data_path'), ev,
+                  'the failure exit removes %s' % estr(ev.args[0]),
+                  'a failure exit of qb_rb_open_2 removes %s, which is not a path stored in the shared header: the buffer the opens return their path in holds the name of whichever file was opened last, so when the data file cannot be created or mapped the header file stays in /dev/shm (printing a dump that does not fit leaves qb-create_from_file-<pid>-header behind)'
+                  % estr(ev.args[0]))
+    have = {last_field(unwrap(ev.args[0]))[1] for ev in uls if last_field(unwrap(ev.args[0]))}
+    ctx.check('R4', 'rb_open:failure-removes-both-files', {'hdr_path', 'data_path'} <= have, uls[0], 'the failure exits remove the header file and the data file',
+              'the failure exits of qb_rb_open_2 remove only %s' % sorted(have))
     f = prog.fn('qb_log_blackbox_print_from_file')
     cr = [st for st in f.events('STORE') if st.rhs is not None and callee_of(unwrap(st.rhs)) == 'qb_rb_create_from_file']
     if len(cr) != 1:
